@@ -23,6 +23,8 @@ pub struct DirState {
     s_compio: bool,
     r_compio: bool,
     in_send: Cell<Option<SK>>,
+    /// the sender waits for a zero-copy buffer future, not for the send itself
+    in_notify: Cell<bool>,
     in_recv: Cell<Option<RK>>,
     /// (first offset, send kind) for every accepted range
     prov: RefCell<Vec<(usize, SK)>>,
@@ -67,6 +69,7 @@ impl DirState {
             s_compio,
             r_compio,
             in_send: Cell::new(None),
+            in_notify: Cell::new(false),
             in_recv: Cell::new(None),
             prov: RefCell::new(Vec::new()),
             partial: Cell::new(false),
@@ -159,99 +162,6 @@ pub fn consume_control(c: &[u8]) -> usize {
     fds
 }
 
-fn split_parts(data: Vec<u8>, lens: &[usize]) -> Vec<Vec<u8>> {
-    let mut out = Vec::with_capacity(lens.len());
-    let mut o = 0;
-    for l in lens {
-        out.push(data[o..o + l].to_vec());
-        o += l;
-    }
-    out
-}
-
-fn to3(mut parts: Vec<Vec<u8>>) -> [Vec<u8>; 3] {
-    while parts.len() > 3 {
-        let last = parts.pop().unwrap();
-        parts.last_mut().unwrap().extend_from_slice(&last);
-    }
-    while parts.len() < 3 {
-        parts.insert(0, Vec::new());
-    }
-    let c = parts.pop().unwrap();
-    let b = parts.pop().unwrap();
-    let a = parts.pop().unwrap();
-    [a, b, c]
-}
-
-fn flat<V: IoVectoredBuf>(v: &V) -> Vec<u8> {
-    let mut out = Vec::new();
-    for s in v.iter_slice() {
-        out.extend_from_slice(s);
-    }
-    out
-}
-
-macro_rules! sbuf {
-    ($shape:expr, $data:ident, |$b:ident| $body:expr) => {
-        match $shape % 5 {
-            0 => {
-                let $b = $data;
-                $body
-            }
-            1 => {
-                let mut v = Vec::with_capacity($data.len() + 37);
-                v.extend_from_slice(&$data);
-                let $b = v;
-                $body
-            }
-            2 => {
-                let n = $data.len();
-                let mut v = vec![0x5Au8; 5];
-                v.extend_from_slice(&$data);
-                v.extend_from_slice(&[0xA5; 9]);
-                let $b = compio_buf::IoBufExt::slice(v, 5..5 + n);
-                $body
-            }
-            3 => {
-                let $b = Bytes::from($data);
-                $body
-            }
-            _ => {
-                let $b: Box<[u8]> = $data.into_boxed_slice();
-                $body
-            }
-        }
-    };
-}
-
-macro_rules! svec {
-    ($shape:expr, $data:ident, $cuts:expr, |$b:ident| $body:expr) => {{
-        let lens = cut($data.len(), $cuts);
-        let mut parts = split_parts($data, &lens);
-        match $shape % 4 {
-            0 => {
-                let $b = parts;
-                $body
-            }
-            1 => {
-                let $b: [Vec<u8>; 3] = to3(parts);
-                $body
-            }
-            2 => {
-                let [a, b_, c] = to3(parts);
-                let $b = (a, (Bytes::from(b_), (c.into_boxed_slice(),)));
-                $body
-            }
-            _ => {
-                parts.insert(0, vec![0xEE; 7]);
-                parts.insert(1, vec![0xEE; 4]);
-                let $b = IoVectoredBuf::slice(parts, 11);
-                $body
-            }
-        }
-    }};
-}
-
 macro_rules! sctl {
     ($tr:expr, $v:expr, |$c:ident| $body:expr) => {{
         let (lv, ty, val) = ctl_spec($tr);
@@ -322,7 +232,9 @@ async fn send_one<T: Conn>(
             let expect = data.clone();
             sbuf!(shape, data, |b| {
                 let BufResult(r, fut) = conn.c_zc(b).await;
+                ds.in_notify.set(true);
                 let back = fut.await;
+                ds.in_notify.set(false);
                 zc_check(ctx, ds, op.kind, back.as_init(), &expect);
                 r
             })
@@ -331,7 +243,9 @@ async fn send_one<T: Conn>(
             let expect = data.clone();
             svec!(shape, data, &op.cuts, |b| {
                 let BufResult(r, fut) = conn.c_zc_vec(b).await;
+                ds.in_notify.set(true);
                 let back = fut.await;
+                ds.in_notify.set(false);
                 zc_check(ctx, ds, op.kind, &flat(&back), &expect);
                 r
             })
@@ -348,7 +262,9 @@ async fn send_one<T: Conn>(
             let expect = data.clone();
             sbuf!(shape, data, |b| sctl!(T::TR, op.ctl, |c| {
                 let BufResult(r, fut) = conn.c_msg_zc(b, c).await;
+                ds.in_notify.set(true);
                 let (back, _c) = fut.await;
+                ds.in_notify.set(false);
                 zc_check(ctx, ds, op.kind, back.as_init(), &expect);
                 r
             }))
@@ -357,7 +273,9 @@ async fn send_one<T: Conn>(
             let expect = data.clone();
             svec!(shape, data, &op.cuts, |b| sctl!(T::TR, op.ctl, |c| {
                 let BufResult(r, fut) = conn.c_msg_zc_vec(b, c).await;
+                ds.in_notify.set(true);
                 let (back, _c) = fut.await;
+                ds.in_notify.set(false);
                 zc_check(ctx, ds, op.kind, &flat(&back), &expect);
                 r
             }))
@@ -367,7 +285,9 @@ async fn send_one<T: Conn>(
 
 async fn settle(ctx: &Ctx, ds: &DirState, deferred: &mut Vec<Deferred>) {
     for d in deferred.drain(..) {
+        ds.in_notify.set(true);
         let back = d.fut.await;
+        ds.in_notify.set(false);
         zc_check(ctx, ds, SK::ZcDefer, &back, &d.expect);
         ctx.tick();
     }
